@@ -447,12 +447,85 @@ def tasks(tier, seed):
     for ci in range(len(bfs_cfg(tier))):
         for part in range(PARTS):
             out.append({'kind': 'bfs', 'cfg': ci, 'part': part})
+    out.append({'kind': 'first'})
     return out
+
+
+# 'first' task: inputs this process has never seen before (a running number is part of each), used for the first time, the
+# resulting object edited in place, then the same input used again.  Whatever the library remembers about an input (a
+# parse memo, an interned setting, a lookup table built on first use) is then shared with - or was built from - an object
+# that has changed since.  Both objects must stay consistent, and the second must equal what the first was before the edit.
+FIRST_FORMS = [
+    ('AnsiString(raw)', lambda n: (lambda: AnsiString('\x1b[1ma%d\x1b[31mb\x1b[m' % n))),
+    ('AnsiString(raw, open at the end)', lambda n: (lambda: AnsiString('\x1b[4m%d' % n))),
+    ('AnsiStr(raw) edited through AnsiString(...)', lambda n: (lambda: AnsiString(AnsiStr('\x1b[1ma%d\x1b[31mb\x1b[m' % n)))),
+    ('AnsiString(text, rgb string)', lambda n: (lambda: AnsiString('ab', 'rgb(1,2,%d)' % (n % 256), 'bold'))),
+    ('AnsiString(text, color256 string)', lambda n: (lambda: AnsiString('ab', 'bg_color256(%d)' % (n % 256)))),
+    ('AnsiString(text, int)', lambda n: (lambda: AnsiString('ab', 30 + n % 8, 1))),
+    ('AnsiString(text, names)', lambda n: (lambda: AnsiString('a%d' % n, 'bold;fg_red'))),
+    ('simplify()', lambda n: (lambda: _simplified('a%d' % n))),
+]
+FIRST_EDITS = [
+    ('apply_formatting(35)', lambda v: v.apply_formatting(AnsiSetting('35'))),
+    ('apply_formatting(35, 1, 2, topmost=False)', lambda v: v.apply_formatting(AnsiSetting('35'), 1, 2, topmost=False)),
+    ('remove_formatting()', lambda v: v.remove_formatting()),
+    ('remove_formatting(None, 0, 1)', lambda v: v.remove_formatting(None, 0, 1)),
+    ('+= itself as str', lambda v: v.__iadd__(str(v))),
+    ("+= 'z'", lambda v: v.__iadd__('z')),
+    ('assign_str(longer)', lambda v: v.assign_str(v.base_str + 'QQ')),
+    ('clip(1, inplace)', lambda v: v.clip(1, inplace=True)),
+    ('clear_formatting()', lambda v: v.clear_formatting()),
+]
+
+
+def _simplified(text):
+    v = AnsiString(text, AnsiSetting('1'))
+    v.apply_formatting(AnsiSetting('31'), 1, 2)
+    v.simplify()
+    return v
+
+
+def check_first(fi, ei, n):
+    fname, mk = FIRST_FORMS[fi][0], FIRST_FORMS[fi][1](n)
+    ename, edit = FIRST_EDITS[ei]
+    try:
+        a = mk()
+        q0 = model.query_vector(a)
+        edit(a)
+        err = model.healthy(a)
+        if err:
+            return [('first-use-shared', '%s, then %s: the edited object is inconsistent: %s' % (fname, ename, err))]
+        b = mk()
+        err = model.healthy(b)
+        if err:
+            return [('first-use-shared', '%s, %s on the result, then the same construction again: the second object is '
+                     'inconsistent: %s' % (fname, ename, err))]
+        q1 = model.query_vector(b)
+        if q1 != q0:
+            return [('first-use-shared', '%s, %s on the result, then the same construction again: the second object answers %s, '
+                     'the first one answered %s before it was edited' % ((fname, ename) + first_query_diff(q1, q0)))]
+    except (TypeError, ValueError) as e:
+        return [('first-use-shared', '%s / %s raised %s: %s' % (fname, ename, type(e).__name__, e))]
+    return []
 
 
 def run_task(task, acc):
     tier = env.tier()
     seed = acc.seed
+    if task['kind'] == 'first':
+        n = 1000 + 97 * seed
+        for fi in range(len(FIRST_FORMS)):
+            for ei in range(len(FIRST_EDITS)):
+                n += 1
+                case = {'kind': 'first', 'form': fi, 'edit': ei, 'n': n}
+                acc.current = case
+                acc.transitions += 1
+                bad = check_first(fi, ei, n)
+                if not bad:
+                    acc.validated += 1
+                for clause, detail in bad:
+                    acc.violation(clause, case, detail, sig=clause + ':' + FIRST_FORMS[fi][0])
+        return
     if task['kind'] == 'sweep':
         h = sweep_pool(tier, seed)[task['i']]
         v = build(h)
@@ -635,6 +708,10 @@ def first_query_diff(a, b):
 
 
 def replay(case):
+    if case['kind'] == 'first':
+        # (the replay uses a number of its own: the point is that the input is new to the process)
+        replay.n = getattr(replay, 'n', 500000) + 1
+        return check_first(case['form'], case['edit'], replay.n)
     if case['kind'] == 'iter':
         from ..hist import apply_op
         try:
